@@ -204,6 +204,7 @@ theorem hinv_istep (cfg : Cfg) (s : IState κ ν) (ev : Sched κ ν) (hinv : HIn
   | run j => exact hinv_runThread cfg s j hinv
   | fire i => exact ⟨entLog_shrink hinv.ent (fun _ _ x => find?_fire x), hinv.pcs, hinv.log⟩
   | skip d => exact ⟨hinv.ent, hinv.pcs, hinv.log⟩
+  | wstep d => exact ⟨hinv.ent, hinv.pcs, hinv.log⟩
   | adv d => exact ⟨entLog_shrink hinv.ent (fun _ _ x => find?_adv x), hinv.pcs, hinv.log⟩
   | probe =>
     refine ⟨?_, fun pc hm => pcOk_cons _ _ pc (hinv.pcs pc hm), ?_⟩
@@ -275,7 +276,7 @@ theorem shrinks_fire (c : Cache κ ν) (i : Nat) : Shrinks c (fire c i).1 := by
     exact ⟨this.on, this.mx, this.tr, this.held⟩
 
 theorem shrinks_adv (c : Cache κ ν) (d : Nat) : Shrinks c (adv c d).1 := by
-  have := shrinks_clearAll c (c.pending.takeWhile (fun s => decide (s.due ≤ c.now + (d : Nat))))
+  have := shrinks_clearAll c (c.pending.filter (fun s => decide (s.due ≤ c.mono + (d : Nat))))
   exact ⟨this.on, this.mx, this.tr, this.held⟩
 
 theorem shrinks_spawnSec (c : Cache κ ν) (k : κ) (ttl : Int) : Shrinks c (spawnSec c k ttl) := by
@@ -429,6 +430,7 @@ theorem zinv_istep (cfg : Cfg) (s : IState κ ν) (ev : Sched κ ν) (hinv : ZIn
   | run j => exact zinv_runThread cfg s j hinv
   | fire i => exact zinv_shrink hinv (shrinks_fire s.c i) keep
   | skip d => exact zinv_shrink hinv (shrinks_skip s.c d) keep
+  | wstep d => exact zinv_shrink hinv (⟨rfl, rfl, Int.le_refl _, fun _ h => h⟩ : Shrinks s.c (wstep s.c d)) keep
   | adv d => exact zinv_shrink hinv (shrinks_adv s.c d) keep
   | probe => exact ⟨hinv.on, hinv.mx, hinv.held, hinv.bound, hinv.fly, hinv.strict⟩
 
@@ -514,6 +516,7 @@ theorem kinv_istep (cfg : Cfg) (s : IState κ ν) (ev : Sched κ ν) (k : KInv c
     | call cl => exact k.p
     | fire i => exact k.p
     | skip d => exact k.p
+    | wstep d => exact k.p
     | adv d => exact k.p
   · cases ev with
     | run j => simp only [istep]; rw [runThread_recheck]; exact k.r
